@@ -146,6 +146,29 @@ impl Jitter {
         t2.wrapping_sub(t1) as i64
     }
 
+    /// `test_timer`: one priming reading, then up to 400 probes of four readings
+    /// (first time stamp, two loop-count readings, second time stamp); the first
+    /// time stamp of every probe is folded into the pool. Stops early at a zero
+    /// reading or a zero 32-bit delta. Returns the number of probes executed.
+    /// (The verdict it returns is C13's subject and not modelled here.)
+    pub fn test_timer_effect(&mut self, t: &mut dyn Readings) -> usize {
+        let _prime = t.read();
+        for i in 0..400 {
+            let t1 = t.read();
+            let _ = t.read();
+            let _ = t.read();
+            self.pool = fold(self.pool, t1);
+            let t2 = t.read();
+            if t1 == 0 || t2 == 0 {
+                return i + 1;
+            }
+            if t2.wrapping_sub(t1) as u32 == 0 {
+                return i + 1;
+            }
+        }
+        400
+    }
+
     /// what a clone is: same pool and rounds, no pending half
     pub fn clone_model(&self) -> Jitter {
         Jitter { pool: self.pool, rounds: self.rounds, half_pending: false }
